@@ -4,7 +4,7 @@ Generated: 1-4 compressible solid layers (static or dynamic), optionally one sta
 centre nor the surface, per-layer complex shear with Im mu / Re mu in 10^[-4,0] (directly generated; the rheology
 objects are C07's subject), real bulk modulus (the solver's API takes a real K, so the H_K Im K term of the statement
 is identically zero here and only H_mu is exercised), l 2..4, N_total 200..400 slices, Kamata starts, RK45 / DOP853 at
-rtol 1e-8..1e-9, frequency 10^[-6,-3.5].
+rtol 1e-8..1e-9, frequency 10^[-6,-3.5]; the slices inside a layer are evenly spaced or geometrically graded (ratio up to e^2).
 
 Oracle.  rho_N = [4 pi G / ((2l+1) R) * int H_mu Im(mu) dr] / (-Im k_l) - 1, H_mu from the repository's
 `sensitivity_to_shear` (evaluated per solid layer), trapezoid rule over the solid layers.  The one-sided dy1/dr at the
@@ -70,6 +70,9 @@ def strategy(tier):
             'logR': st.floats(5.8, 7.2), 'l': st.integers(2, 4), 'N': st.integers(200, 400), 'logfreq': st.floats(-6.0, -3.5),
             'method': st.sampled_from(['RK45', 'DOP853']), 'logrtol': st.floats(-9.0, -8.0),
             'e': st.floats(0.001, 0.2), 'loga': st.floats(8.0, 9.5), 'logM': st.floats(24.0, 28.0),
+            # radial grid inside each layer: 0 = evenly spaced, otherwise geometrically graded (slices thinner towards the
+            # bottom (w > 0) or the top (w < 0) of the layer by up to e^2) - the kernel's dy1/dr stencil is a non-uniform one
+            'warp': st.lists(st.sampled_from([0.0, 0.0, 1.0, -1.0, 2.0, -2.0, 0.5]), min_size=n, max_size=n),
         })
     return st.tuples(st.integers(1, 4), st.booleans()).flatmap(lambda t: build(t[0], t[1] and t[0] >= 2))
 
@@ -83,7 +86,8 @@ def in_domain(c):
                 and all(9.5 <= x <= 11.3 for x in c['logmu']) and all(-4 <= x <= 0 for x in c['logtan'])
                 and all(10.5 <= x <= 12 for x in c['logK']) and 5.8 <= c['logR'] <= 7.2 and 2 <= c['l'] <= 4
                 and 200 <= c['N'] <= 400 and -6 <= c['logfreq'] <= -3.5 and -9 <= c['logrtol'] <= -8
-                and 0.001 <= c['e'] <= 0.2 and 8 <= c['loga'] <= 9.5 and 24 <= c['logM'] <= 28)
+                and 0.001 <= c['e'] <= 0.2 and 8 <= c['loga'] <= 9.5 and 24 <= c['logM'] <= 28
+                and len(c.get('warp', [0.0] * n)) == n and all(-2 <= x <= 2 for x in c.get('warp', [])))
     except Exception:
         return False
 
@@ -92,11 +96,11 @@ def fixed_cases(tier):
     return [{'n_solid': 3, 'liquid_pos': 1, 'dynamic': [False, False, False, True], 'weights': [1.0, 1.0, 1.0, 0.6],
              'logrho_top': 3.4, 'rho_ratios': [1.3, 1.3, 1.2, 1.1], 'logmu': [11.0, 10.0, 10.8, 10.5], 'logtan': [-2.0, -1.0, -0.5, -1.5],
              'logK': [11.5, 11.0, 11.2, 11.0], 'logR': 6.5, 'l': 2, 'N': 240, 'logfreq': -4.5, 'method': 'RK45', 'logrtol': -8.0,
-             'e': 0.05, 'loga': 8.6, 'logM': 27.0}]
+             'e': 0.05, 'loga': 8.6, 'logM': 27.0, 'warp': [1.0, 0.0, -1.0, 2.0]}]
 
 
 def required_labels(tier):
-    return ['layers:1', 'layers:2+', 'with_liquid', 'l:2', 'l:3', 'l:4', 'heating_profile']
+    return ['layers:1', 'layers:2+', 'with_liquid', 'l:2', 'l:3', 'l:4', 'heating_profile', 'grid:graded', 'grid:even']
 
 
 _TIER = ['quick']
@@ -130,6 +134,19 @@ def _spec(case, mult):
         layers.append({'type': k, 'static': True if k == 'liquid' else not case['dynamic'][i], 'incomp': False,
                        'top_frac': float(tops[i]), 'rho': rho[i], 'mu': [mu, mu * t], 'K': 10.0 ** case['logK'][i],
                        'n': max(8, int(round(case['N'] * frac[i]))) * mult})
+    # explicit slice radii (graded grids)
+    warp = case.get('warp') or [0.0] * n
+    prev = r0
+    for i, L in enumerate(layers):
+        top = L['top_frac'] if i < n - 1 else 1.0
+        m = L['n']
+        x = np.linspace(0.0, 1.0, m if i == 0 else m + 1)
+        w = float(warp[i])
+        sgrid = x if w == 0.0 else (np.exp(w * x) - 1.0) / (math.exp(w) - 1.0)
+        r = prev + (top - prev) * sgrid
+        r[-1] = top
+        L['r_fracs'] = (r if i == 0 else r[1:]).tolist()
+        prev = top
     rtol = 10.0 ** case['logrtol']
     return {'R': 10.0 ** case['logR'], 'r0_frac': r0, 'l': int(case['l']), 'frequency': 10.0 ** case['logfreq'], 'layers': layers,
             'opts': {'use_kamata': True, 'method': case['method'], 'rtol': rtol, 'atol': rtol * 1e-4, 'nondim': True,
@@ -169,6 +186,7 @@ def evaluate(case):
     labels = ['layers:1' if case['n_solid'] == 1 else 'layers:2+', 'l:%d' % case['l'], 'method:' + case['method']]
     if case['liquid_pos']:
         labels.append('with_liquid')
+    labels.append('grid:graded' if any(w != 0.0 for w in (case.get('warp') or [0.0])) else 'grid:even')
     mults = (1, 2, 4, 8) if _TIER[0] == 'thorough' else (1, 2, 4)
     with repo_call('radial_solver+sensitivity_to_shear'):
         runs = []
